@@ -43,7 +43,8 @@ META = {
     "C07": dict(engine="engine", design_ref="7 C07",
                 technique="deterministic simulation; reference SSI model compared verdict by verdict (exact in op-atomic schedules)",
                 text="Both directions of the iff are decided exactly where API calls do not overlap (background goroutines still interleave); "
-                     "in overlapping schedules only verdicts that real time disambiguates are judged.",
+                     "in overlapping schedules verdicts are judged where real time disambiguates them, and missed conflicts also where the "
+                     "engine's own read/commit timestamps (verif accessors) order two overlapping commits.",
                 note=WHOLE + "; key fingerprints are 64-bit hashes: a collision would be reported as a spurious conflict (not observed)"),
     "C08": dict(engine="engine", design_ref="7 C08",
                 technique="deterministic simulation; map model ignoring abandoned transactions, unique values, documented-error table",
@@ -51,7 +52,7 @@ META = {
                      "rotations, flushes, compactions and restarts.",
                 note=WHOLE),
     "C09": dict(engine="comp", design_ref="7 C09",
-                technique="simulation-hosted level-manager driver; before/after brute-force comparison around every compaction",
+                technique="simulation-hosted level-manager driver; before/after comparison around every compaction, both of brute-force answers over the decoded tables and of the engine's own lookups",
                 text="Generated table layouts and watermarks, real flush/compaction/recover code; answers for all keys x all permitted "
                      "timestamps of each case are compared exhaustively; layouts, configurations and watermarks are sampled.",
                 note=WHOLE + "; Get-level (not entry-level) equality: a dropped tombstone that shadows nothing is not an error; the table decoder is trusted (C11 checks it)"),
